@@ -387,6 +387,8 @@ func HostileValues() []interface{} {
 			A  []map[string]interface{}
 			M  map[string][]interface{}
 		}{1, []map[string]interface{}{cyclicMap(1), nil}, map[string][]interface{}{"k": selfSlice()}},
+		cyclicTree(), struct{ F0 tree }{cyclicTree()}, map[string]interface{}{"F0": cyclicTree(), "M": cyclicList()}, cyclicList(), struct{ A list }{cyclicList()},
+		map[string]map[string]interface{}{"F0": cyclicMap(1)}, map[string][]map[string]interface{}{"F1": {cyclicMap(1), mutualMaps()}},
 		cyclicStruct(), []interface{}{selfSlice()}, map[string]interface{}{"F0": cyclicStruct(), "F1": []interface{}{cyclicStruct()}},
 	}
 }
@@ -460,4 +462,24 @@ func hostInstant(r *rand.Rand) (sec, nsec int64) {
 		sec = int64(r.Intn(2000000000))
 	}
 	return sec, nsec
+}
+
+// tree and list are recursive container types with concrete (non-interface) members.
+type tree map[string]tree
+type list []list
+
+// cyclicTree is a map of a recursive concrete map type that contains itself.
+func cyclicTree() tree {
+	t := tree{"leaf": tree{}}
+	t["self"] = t
+	t["F0"] = tree{"up": t}
+	return t
+}
+
+// cyclicList is a slice of a recursive concrete slice type that contains itself.
+func cyclicList() list {
+	l := make(list, 2)
+	l[0] = l
+	l[1] = list{l}
+	return l
 }
